@@ -282,12 +282,22 @@ def _bytes(seed: int, n: int) -> bytes:
     return bytes(r.randrange(1, 256) for _ in range(n))
 
 
+EXC = {"RuntimeError": RuntimeError, "KeyboardInterrupt": KeyboardInterrupt, "SystemExit": SystemExit}
+
+
+def make_exc(name, what):
+    """Exception object of the named kind (BaseException-only kinds model Ctrl-C / sys.exit() during a save)."""
+    cls = EXC[name or "RuntimeError"]
+    return cls(what) if cls is not SystemExit else SystemExit(3)
+
+
 class MultiTensor:
     """A third-party TensorProtocol implementation whose tofile() writes several chunks (and may raise
     between two of them)."""
 
-    def __init__(self, name, chunks, raise_after):
+    def __init__(self, name, chunks, raise_after, exc=None):
         import onnx_ir as ir
+        self._exc = exc
         self.name = name
         self._chunks = chunks
         self._raise_after = raise_after
@@ -313,10 +323,10 @@ class MultiTensor:
     def tofile(self, file):
         for i, ch in enumerate(self._chunks):
             if self._raise_after is not None and i == self._raise_after:
-                raise RuntimeError("tensor evaluation failed (injected)")
+                raise make_exc(self._exc, "tensor evaluation failed (injected)")
             file.write(ch)
         if self._raise_after is not None and self._raise_after >= len(self._chunks):
-            raise RuntimeError("tensor evaluation failed (injected)")
+            raise make_exc(self._exc, "tensor evaluation failed (injected)")
 
 
 class Built:
@@ -362,8 +372,8 @@ def build(scn: dict, root: str) -> Built:
             if obj.nbytes <= thr:
                 b.small.append(h)
         elif k == "lazy_raise":
-            def boom():
-                raise RuntimeError("lazy tensor failed (injected)")
+            def boom(_exc=t.get("exc")):
+                raise make_exc(_exc, "lazy tensor failed (injected)")
             obj = ir.LazyTensor(boom, dtype=ir.DataType.UINT8, shape=ir.Shape([t["n"]]), name=name)
         elif k == "multi":
             chunks, pos = [], 0
@@ -371,7 +381,7 @@ def build(scn: dict, root: str) -> Built:
             for c in t["chunks"]:
                 chunks.append(data[pos:pos + c])
                 pos += c
-            obj = MultiTensor(name, chunks, t.get("raise_after"))
+            obj = MultiTensor(name, chunks, t.get("raise_after"), t.get("exc"))
         else:
             raise AssertionError(k)
         inits.append(ir.Value(name=name, const_value=obj, type=ir.TensorType(ir.DataType.UINT8),
@@ -411,11 +421,13 @@ def save_kwargs(scn: dict, cb_log: list | None = None) -> dict:
               max_workers=scn.get("max_workers"), max_shard_size_bytes=scn.get("max_shard"))
     cb = scn.get("cb")
     if cb is not None:
-        def callback(tensor, info, _cb=cb):
+        at, exc = (cb["at"], cb.get("exc")) if isinstance(cb, dict) else (cb, None)
+
+        def callback(tensor, info, _at=at, _exc=exc):
             if cb_log is not None:
                 cb_log(info.index)
-            if _cb != "ok" and info.index == _cb:
-                raise RuntimeError("callback failed (injected)")
+            if _at != "ok" and info.index == _at:
+                raise make_exc(_exc, "callback failed (injected)")
         kw["callback"] = callback
     return kw
 
@@ -435,7 +447,7 @@ def run_save(scn: dict, root: str, mode=None, index=-1, err=None):
     with Shim(ctl, scn.get("chunk")):
         try:
             ir.save(b.model, os.path.join(root, "model.onnx"), **save_kwargs(scn, cb_log))
-        except Exception as e:  # noqa: BLE001
+        except BaseException as e:  # noqa: BLE001  (KeyboardInterrupt / SystemExit are injected on purpose)
             outcome = ("raise", e)
     return b, ctl, outcome
 
@@ -458,7 +470,7 @@ def run_killed(scn: dict, root: str, index: int):
             with Shim(ctl, scn.get("chunk")):
                 try:
                     ir.save(b.model, os.path.join(root, "model.onnx"), **save_kwargs(scn, cb_log))
-                except Exception:  # noqa: BLE001
+                except BaseException:  # noqa: BLE001
                     code = 3
         except BaseException:  # noqa: BLE001
             code = 4
